@@ -173,6 +173,92 @@ def range_validation_present(ix):
     return False
 
 
+def rule_structure_walkers(ctx, ix):
+    """Sibling agreement of the four functions that walk the stored structure level by level
+    (taco_structure_to_cffi, Tensor.taco_indices, Tensor.taco_vals, Tensor.items): the number of
+    positions is multiplied by the level's own dimension at a dense level and replaced by the length of
+    crd (= last pos entry) at a compressed level; pos has positions + 1 entries, crd pos[-1] entries,
+    vals one per position of the last level; items visits [pos[p], pos[p+1]) and position*dim + index."""
+    ctx.rule("C09.structure-walkers", "writer, validator and readers agree on the size and addressing of every level", min_instances=10)
+
+    def level_loop(fn):
+        for n in ast.walk(fn):
+            if isinstance(n, ast.For) and isinstance(n.target, ast.Name) and u(n.iter) in ("range(order)", "range(cffi_tensor.order)", "range(self.order)"):
+                return n
+        return None
+
+    def arms(loop, lv):
+        dense = comp = None
+        for n in ast.walk(loop):
+            if isinstance(n, ast.If):
+                t = u(n.test)
+                if re.fullmatch(rf"(modes|mode_types)\[{lv}\] == (Mode\.dense|0)", t):
+                    dense = n.body
+                    if len(n.orelse) == 1 and isinstance(n.orelse[0], ast.If) and re.fullmatch(rf"(modes|mode_types)\[{lv}\] == (Mode\.compressed|1)", u(n.orelse[0].test)):
+                        comp = n.orelse[0].body
+                    break
+        return dense, comp
+
+    def check(key, cond, msg):
+        ctx.instance("C09.structure-walkers")
+        if cond:
+            ctx.ok("C09.structure-walkers", key)
+        else:
+            ctx.fail("C09.structure-walkers", key, msg)
+
+    table = [
+        ("compile/_cffi_ownership.py:taco_structure_to_cffi", ix.func("tensora.compile._cffi_ownership.taco_structure_to_cffi").node),
+        ("tensor.py:Tensor.taco_indices", ix.func(f"{T_MOD}.Tensor.taco_indices").node),
+        ("tensor.py:Tensor.taco_vals", ix.func(f"{T_MOD}.Tensor.taco_vals").node),
+    ]
+    for key, fn in table:
+        loop = level_loop(fn)
+        if loop is None:
+            check(key + ":level loop", False, "no loop over all levels")
+            continue
+        lv = loop.target.id
+        dense, comp = arms(loop, lv)
+        if dense is None or comp is None:
+            check(key + ":mode dispatch", False, "no dense/compressed dispatch on the level's mode")
+            continue
+        dtxt = [u(x) for x in dense]
+        ctxt = " ; ".join(u(x) for x in comp)
+        check(
+            key + ":dense level multiplies positions by the level's own dimension",
+            f"nnz *= dimensions[mode_ordering[{lv}]]" in dtxt,
+            f"dense arm is {dtxt}: positions must be multiplied by dimensions[mode_ordering[level]]",
+        )
+        if "taco_structure_to_cffi" in key:
+            check(key + ":compressed level", "nnz = len(crd)" in ctxt and "len(pos) != nnz + 1" in ctxt and "len(crd) != pos[-1]" in ctxt,
+                  "compressed arm does not validate len(pos) == positions + 1, len(crd) == pos[-1] and continue with len(crd) positions")
+        elif "taco_indices" in key:
+            check(key + ":compressed level",
+                  re.search(rf"pos = list\(cffi_indexes\[{lv}\]\[0\]\[0:nnz \+ 1\]\)", ctxt) is not None
+                  and re.search(rf"crd = list\(cffi_indexes\[{lv}\]\[1\]\[0:pos\[-1\]\]\)", ctxt) is not None
+                  and "nnz = len(crd)" in ctxt and "indices.append([pos, crd])" in ctxt,
+                  "compressed arm does not read positions + 1 pos entries and pos[-1] crd entries, or does not continue with len(crd) positions")
+        else:
+            check(key + ":compressed level", re.search(rf"nnz = cffi_indexes\[{lv}\]\[0\]\[nnz\]", ctxt) is not None,
+                  "compressed arm does not continue with pos[positions] (the last pos entry) positions")
+    s_ = u(ix.func(f"{T_MOD}.Tensor.taco_vals").node)
+    check("tensor.py:Tensor.taco_vals:one value per position", "return list(cffi_vals[0:nnz])" in s_, "vals are not read for exactly the positions of the last level")
+    s_ = u(ix.func("tensora.compile._cffi_ownership.taco_structure_to_cffi").node)
+    check("compile/_cffi_ownership.py:taco_structure_to_cffi:one value per position", "len(vals) != nnz" in s_, "length of vals is not validated against the positions of the last level")
+    # items
+    rec = ix.func(f"{T_MOD}.Tensor.items.<locals>.recurse").node
+    s_ = u(rec)
+    check("tensor.py:Tensor.items.recurse:dense addressing", "next_position = level_dimensions[i_level] * position + index" in s_ and "for index in range(level_dimensions[i_level]):" in s_,
+          "dense level is not walked as position * dimension + index for every index of the level's dimension")
+    check("tensor.py:Tensor.items.recurse:compressed addressing",
+          "start = cffi_indexes[i_level][0][position]" in s_ and "end = cffi_indexes[i_level][0][position + 1]" in s_ and "for next_position in range(start, end):" in s_ and "index = cffi_indexes[i_level][1][next_position]" in s_,
+          "compressed level is not walked over [pos[p], pos[p + 1]) reading crd at each position")
+    check("tensor.py:Tensor.items.recurse:value at the last position", "yield (coordinate, cffi_values[position])" in s_ and "if i_level < order:" in s_,
+          "the value is not read at the position reached after the last level")
+    itm = u(ix.func(f"{T_MOD}.Tensor.items").node)
+    check("tensor.py:Tensor.items:level dimensions", "level_dimensions = [dimensions[i] for i in mode_ordering]" in itm and "yield from recurse(0, (), 0)" in itm,
+          "level dimensions are not the dimensions permuted by mode_ordering, or the walk does not start at level 0, position 0")
+
+
 def rule_validation_dominates(ctx, ix):
     """Every Tensor(...) construction receives a validated struct; __setstate__ goes through
     taco_structure_to_cffi with the keys __getstate__ wrote, each bound to the parameter of the same
